@@ -290,7 +290,7 @@ func runC01() {
 	asyncRecoveryFamily(rnd.Fork(), 2)
 	thin := 1 // the families borrowed from c06.go are thinned out in the thorough tier (wall clock)
 	if run.Thorough() {
-		thin = 7
+		thin = 14
 	}
 	for i := 0; i < n; i++ {
 		c01Scenario(rnd.Fork())
